@@ -283,7 +283,7 @@ func (n Num) rat() (*big.Rat, bool) {
 	case NZero:
 		return new(big.Rat), true
 	case NDec:
-		if n.Exp > 5000 || n.Exp < -5000 {
+		if n.Exp > 30000 || n.Exp < -30000 {
 			return nil, false
 		}
 		r := new(big.Rat).SetInt(n.Coeff)
